@@ -144,10 +144,22 @@ def run(ctx):
     pick += [t for t in traces if t["kind"] == "mtl" and t["inp"]["rn"] > 0 and t["inp"]["ln"] > 0 and nz(t)][:1]
     vlib.sample(ctx, pick)
     vlib.validate_with_findings(ctx, "Trace_LinReg", traces, constants=TRACE_CONST, chunk=4000)
+    # accounting: offset cases accepted without the coefficient / orthogonality clauses (not resolvable in the float type)
+    import glob, os
+    notes = set()
+    for f in glob.glob(os.path.join(ctx.work, "Trace_LinReg_[0-9]*.out")):
+        with open(f, errors="replace") as fh:
+            notes.update(l.strip() for l in fh if l.startswith('<<"NOTE"'))
+    offc = sum(1 for c in cases if any(c["inp"].get("off", [])))
+    ctx.extra["ols_offset_cases"] = offc
+    ctx.extra["ols_offset_cases_unresolvable_in_float_type"] = len(notes)
+    vlib.log("offset cases: %d, of which not resolvable in their float type (only a finite result demanded): %d" % (offc, len(notes)))
     ctx.rule = ("cases = lattice regression problems (sorted first column over {-1..2} x (scale,offset) in {1,10}x{0,10}; "
                 "second column: all binary vectors incl. constant columns, x10, exactly collinear, squared) x all targets over "
                 "{0,1,3} x {OLS, elastic net, multi-task} x penalty {0,1/10,1/2,1,2} x l1-ratio {0,1/2,1} x intercept on/off, "
                 "target unit 2^ue, ue in {0,-10,-14,10} (with a loose fit at tolerance 10^-1..10^-4 and its repetition in unit 1), "
+                "OLS with intercept: per-column offsets (f32: 2000, 2^11, 2^13, 2^16; f64: 10^5, 10^7, 2^30) and a nearly collinear "
+                "second column (30*x1 + x2), half of the OLS cases in f32; "
                 "enumerated by TLC (Gen_LinReg) and thinned by a fixed hash [+ seeded random n<=20, p<=3, t<=3 in the thorough "
                 "tier]; non-trivial = targets not all zero and (some column mean non-zero or p > 1); distinct by "
                 "(kind, X, Y, penalty, ratio, intercept, float type)")
@@ -155,6 +167,7 @@ def run(ctx):
     ctx.assumptions = [
         "a KKT point of the (convex) documented objective is a global minimiser (textbook lemma; checked on a grid by the design model)",
         "numerical allowance 10^-3 on x_j'r (f64; f32: + 5*10^-5 of the magnitude of the summed terms), quantisation slack derived per clause",
+        "OLS accuracy model: column-wise relative backward error 8*eps (Householder QR), first-order perturbation bound on the slopes; offset cases whose bound exceeds 0.05 are only required to give a finite result (counted in coverage.ols_offset_cases_unresolvable_in_float_type)",
         "sweep budgets 3000 (well-conditioned designs) / 40000-100000 are large enough to converge on the generated domain",
         "the reported duality gap is compared as the statement says (gap >= objective decrease); the code's gap is in units of n * objective, which is larger",
     ]
